@@ -67,6 +67,16 @@ class Layout:
         self.text, self.rdata, self.data = self.regs["text"], self.regs["rdata"], self.regs["data"]
         self.text.buf[:] = rand_bytes(rng, self.text.cap)
         self.trailer = b""
+        # OVERLAY: bytes of the file after the raw data of the last section (no section maps them, a mapped image
+        # does not have them); addressed by FILE OFFSET only (debug raw data of linkers that do not map it)
+        self.overlay_base = prd
+        self.overlay = bytearray()
+
+    def overlay_alloc(self, data, align=4, skew=0):
+        """-> file offset of `data` appended to the overlay"""
+        pos = (self.overlay_base + len(self.overlay) + align - 1) // align * align + skew
+        self.overlay += bytes(pos - self.overlay_base - len(self.overlay)) + data
+        return pos
 
     def build(self):
         pe = self.pe
@@ -77,7 +87,12 @@ class Layout:
                                        chars=0x60000020 if name == "text" else 0x40000040, data=bytes(r.buf)))
         pe.base_of_code, pe.size_of_code = self.text.va, self.text.cap
         data = pe.build()
+        if self.overlay:
+            data = data + bytes(self.overlay_base - len(data)) + bytes(self.overlay)
         return data
+
+    def sections_end(self):
+        return self.overlay_base
 
 
 def pad4(b):
@@ -145,6 +160,12 @@ def build_debug(rng, L):
         elif r < 0.1:
             size = rng.choice([len(blob) + 0x10000, U32, 0x80000000])               # beyond the buffer
         skew = rng.choice([1, 2, 3]) if rng.random() < 0.06 else 0
+        if rng.random() < 0.14:
+            # raw data in the OVERLAY (past the last section, inside the file), not mapped: AddressOfRawData = 0.
+            # File views read it through PointerToRawData; a mapped view looks at offset 0 of the image
+            ptr = L.overlay_alloc(blob + (b"" if term else b"ZZZZ"), 4, skew)
+            ents.append(struct.pack("<IIHHIIII", 0, rng.getrandbits(32), rng.randrange(4), rng.randrange(4), ty, size & U32, 0, ptr & U32))
+            continue
         # unterminated strings must not be rescued by the neighbour's bytes: reading is confined to SizeOfData
         pos = L.rdata.alloc(blob + (b"" if term else b"ZZZZ"), 4, skew)
         if pos is None:
@@ -413,7 +434,7 @@ def one_image(rng, bits, tier):
         pe.dirs[DIR_SECURITY] = (decl_off, decl_size)
         data = L.build()
         data = data + bytes(off - len(data)) + blob
-    view = load_view(pe, data[:max(r_.prd + r_.cap for r_ in L.regs.values())])
+    view = load_view(pe, data[:L.sections_end()])
     return L, data, view, fns, vbase
 
 
@@ -468,6 +489,65 @@ def gen_dirs_cv_bounds(rng, tier):
             for k, buf in (("f%d" % bits, data), ("v%d" % bits, view)):
                 if buf is not None:
                     cases.append([img_line(rng, buf, rng.choice([0, 8])), "debug %s dump" % k])
+    return cases
+
+
+def gen_dirs_overlay(rng, tier):
+    """debug entries whose raw data lies in the OVERLAY of the file (after the raw data of the last section, inside the
+    file; `AddressOfRawData` = 0 — not mapped): every payload kind (NB10, RSDS, POGO, MISC, unknown type), dword aligned
+    and not, `SizeOfData` ending exactly at / one byte past the end of the file, the certificate table behind it.
+    File views read the data through `PointerToRawData`; a mapped view of the same image has no such bytes: with
+    `AddressOfRawData` = 0 `Dir::data` is the first `SizeOfData` bytes of the IMAGE (what the model says, too)"""
+    cases = []
+    kinds = ["nb10", "rsds", "pogo", "misc", "unk"]
+    variants = ["plain", "skew", "to_eof", "past_eof", "cert_after", "two", "big_view"]
+    reps = 1 if tier == "quick" else 6
+    for bits in (32, 64):
+        for kind in kinds:
+            for var in variants:
+                for _ in range(reps):
+                    L = Layout(rng, bits, rdata_last=rng.random() < 0.5)
+                    def payload(kind):
+                        if kind == "nb10":
+                            return 2, cv_nb10(rng, rand_path(rng))
+                        if kind == "rsds":
+                            return 2, cv_rsds(rng, rand_path(rng))
+                        if kind == "pogo":
+                            return 13, pogo_blob(rng)
+                        if kind == "misc":
+                            return 4, struct.pack("<IIB3s", 1, 12 + 8, rng.choice([0, 1]), b"\0\0\0") + b"name.exe"
+                        return rng.choice([0, 1, 3, 9, 12, 16, U32]), rand_bytes(rng, rng.choice([1, 4, 20, 33]))
+                    ents = []
+                    todo = [kind] + ([rng.choice(kinds)] if var == "two" else [])
+                    for j, kd in enumerate(todo):
+                        ty, blob = payload(kd)
+                        last = j == len(todo) - 1
+                        skew = rng.choice([1, 2, 3]) if var == "skew" else 0
+                        ptr = L.overlay_alloc(blob if (last and var in ("to_eof", "past_eof")) else blob + b"ZZZZ", 4, skew)
+                        size = len(blob)
+                        if last and var == "past_eof":
+                            size += 1
+                        if var == "big_view":
+                            size = max(size, 0x4000)        # more than the mapped image holds from offset 0: no data in the view
+                            L.overlay += bytes(size - len(blob))
+                        ents.append(struct.pack("<IIHHIIII", 0, rng.getrandbits(32), 1, 0, ty, size & U32, 0, ptr & U32))
+                    table = b"".join(ents)
+                    tpos = L.rdata.alloc(table, 4, 0)
+                    L.pe.dirs[DIR_DEBUG] = (L.rdata.rva(tpos), len(table))
+                    data = L.build()
+                    view = load_view(L.pe, data[:L.sections_end()])
+                    if var == "cert_after":
+                        off = (len(data) + 7) // 8 * 8
+                        L.pe.dirs[DIR_SECURITY] = (off, 16)
+                        data = L.build()
+                        data = data + bytes(off - len(data)) + cert_blob(rng, 16)
+                    for k, buf in (("f%d" % bits, data), ("v%d" % bits, view)):
+                        if buf is None:
+                            continue
+                        kw = "wf" if k[0] == "f" else "wv"
+                        # flush against the guard page at the END: a read past the file faults
+                        cases.append([img_line(rng, buf, rng.choice([0, 8]), "e"), "from_bytes " + k, "debug %s dump" % k, "debug %s dump" % kw,
+                                      "security %s dump" % k])
     return cases
 
 
